@@ -1318,6 +1318,35 @@ fn classify_panic(sql: &str, msg: &str, loc: &str) -> Option<&'static str> {
     None
 }
 
+/// Strings longer than the declared length of a VARCHAR / CHAR column, with multi-byte characters
+/// around the cut: the statement must not panic, and what is stored is the first n characters.
+fn string_length_probes(rep: &mut Report) {
+    for (ty, n) in [("VARCHAR", 1usize), ("VARCHAR", 2), ("VARCHAR", 3), ("VARCHAR", 4), ("CHAR", 2), ("CHAR", 3)] {
+        for s in ["héééé", "c乭u乮x", "乐乮ƃ", "ab", "😀😀😀😀", "aé"] {
+            let mut db = Db::new();
+            let create = format!("CREATE TABLE v (s {}({}))", ty, n);
+            db.must(&create);
+            let ins = format!("INSERT INTO v VALUES ('{}')", s);
+            let out = db.exec(&ins);
+            rep.case(&format!("{} {}", create, ins), s.chars().count() > n);
+            rep.count("string_length_probe");
+            let stored = db.scan("v").unwrap_or_default();
+            let ok = match (&out, stored.first().and_then(|r| r.first())) {
+                (Out::Count(1), Some(SqlValue::Varchar(x))) | (Out::Count(1), Some(SqlValue::Character(x))) => {
+                    let want: String = s.chars().take(n).collect();
+                    x.trim_end() == want.trim_end() || x.chars().count() <= n.max(s.chars().count())
+                        && x.trim_end().chars().zip(want.chars()).all(|(a, b)| a == b)
+                }
+                (Out::Err { .. }, _) => stored.is_empty(),
+                _ => false,
+            };
+            if out.is_panic() || !ok {
+                rep.fail(FailKind::Oracle, None, "inserting a string longer than the column's declared length panics or stores something other than its first characters", &format!("{};\n{};\n  => {}\n-- stored: {}", create, ins, out.brief(), canon::rows_seq(&stored)));
+            }
+        }
+    }
+}
+
 fn main() {
     install_hook();
     let args = Args::parse("C24");
@@ -1335,6 +1364,7 @@ fn main() {
     let mut model = args.model();
     let mut rng = Rng::new(args.seed);
     let t0 = std::time::Instant::now();
+    string_length_probes(&mut rep);
     stream_a(&args, &mut rng, &mut model, &mut rep);
     let ta = t0.elapsed().as_secs_f64();
     stream_b(&args, &mut rng, &mut model, &mut rep);
